@@ -30,17 +30,34 @@ Case(fam, files, parts, notes, subs, crds, dc, sn, dns, schema, at) ==
 
 FilesAt(segs, paths) == [j \in DOMAIN segs |-> [p |-> paths[j], docs |-> segs[j]]]
 
-\* (one set comprehension per length: TLC normalises each set once; a UNION over thousands of small sets is quadratic)
-Min2(a, b) == IF a <= b THEN a ELSE b
-Max2(a, b) == IF a <= b THEN b ELSE a
-SplitsOfLen(types, n) == {Segs(ds, Min2(a, b), Max2(a, b)) : ds \in [1..n -> types], a \in 1..n, b \in 1..n}
-
-\* files p/templates/{a,b,c}.yaml
-PartCases(types, lo, hi) ==
-  UNION {{Case("part", FilesAt(sg, <<11, 12, 13>>), {}, {}, {}, {}, "none", FALSE, FALSE, "none", "p") : sg \in SplitsOfLen(types, n)} : n \in lo..hi}
+\* The document-sequence cases are built as SEQUENCES by index arithmetic (no set of hundreds of thousands of
+\* records to normalise): case number i  <->  (document sequence as a base-T number, cut positions)
+RECURSIVE Pow(_, _)
+Pow(b, e) == IF e = 0 THEN 1 ELSE b * Pow(b, e - 1)
+\* at most two cuts of 1..n into consecutive non-empty files
+CutsSeq(n) == <<<<>>>> \o [c \in 1..(n - 1) |-> <<c>>]
+              \o SetToSeq({<<c1, c2>> : c1 \in 1..(n - 1), c2 \in 1..(n - 1)} \cap {t \in (1..n) \X (1..n) : t[1] < t[2]})
+SegsByCuts(ds, cs) ==
+  CASE Len(cs) = 0 -> <<ds>>
+    [] Len(cs) = 1 -> <<SubSeq(ds, 1, cs[1]), SubSeq(ds, cs[1] + 1, Len(ds))>>
+    [] OTHER -> <<SubSeq(ds, 1, cs[1]), SubSeq(ds, cs[1] + 1, cs[2]), SubSeq(ds, cs[2] + 1, Len(ds))>>
+PartSeqN(ts, n, cuts, paths, subs) ==
+  LET T == Len(ts)  C == Len(cuts) IN
+  [i \in 1..(Pow(T, n) * C) |->
+     LET q == i - 1
+         r == q \div C
+         ds == [j \in 1..n |-> ts[((r \div Pow(T, j - 1)) % T) + 1]]
+     IN Case("part", FilesAt(SegsByCuts(ds, cuts[(q % C) + 1]), paths), {}, {}, subs, {}, "none", FALSE, FALSE, "none", "p")]
+\* files p/templates/{a,b,c}.yaml, lo..hi documents, every cut
+PartSeq(ts, lo, hi) == FlattenSeq([k \in 1..(hi - lo + 1) |-> PartSeqN(ts, lo + k - 1, CutsSeq(lo + k - 1), <<11, 12, 13>>, {})])
 \* the first file belongs to a subchart (sorts before the parent's files)
-PartSubCases(types, lo, hi) ==
-  UNION {{Case("part", FilesAt(sg, <<3, 11, 12>>), {}, {}, {"s1"}, {}, "none", FALSE, FALSE, "none", "p") : sg \in SplitsOfLen(types, n)} : n \in lo..hi}
+PartSubSeq(ts, lo, hi) == FlattenSeq([k \in 1..(hi - lo + 1) |-> PartSeqN(ts, lo + k - 1, CutsSeq(lo + k - 1), <<3, 11, 12>>, {"s1"})])
+\* longer sequences in ONE file (no cut)
+OneFileSeq(ts, lo, hi) == FlattenSeq([k \in 1..(hi - lo + 1) |-> PartSeqN(ts, lo + k - 1, <<<<>>>>, <<11, 12, 13>>, {})])
+
+AbsTypesSeq == SetToSeq(LitTypes(AbsCls))
+AllTypesSeq == SetToSeq(LitTypes(AllCls))
+HasFlavour(c) == \E j \in DOMAIN c.files : \E i \in DOMAIN c.files[j].docs : c.files[j].docs[i].c \notin AbsCls
 
 \* long files: sort.Slice is stable up to 12 elements (insertion sort), so an unstable kind sort only
 \* shows on longer lists -- n documents, kinds cycling with stride a from offset b, in nf files
@@ -112,10 +129,10 @@ StrictInputs  == {c \in OrderCases : NPaths(c) <= 4} \cup SchemaCases
 
 \* C08: all document sequences over kind x class (one flavour per class) in up to three files,
 \* and every flavour incl. blank / comment-only documents for up to two documents
-C08All(n, m)  == PartCases(LitTypes(AbsCls), 1, n) \cup PartSubCases(LitTypes(AbsCls), 1, m) \cup PartCases(LitTypes(AllCls), 1, 2) \cup LongCases
-\* longer sequences in ONE file (no cut): lo..hi documents
-OneFileCases(types, lo, hi) ==
-  {Case("part", FilesAt(<<ds>>, <<11, 12, 13>>), {}, {}, {}, {}, "none", FALSE, FALSE, "none", "p") : ds \in SeqsOf(types, lo, hi)}
+C08Seq(n, m, one) ==
+  PartSeq(AbsTypesSeq, 1, n) \o PartSubSeq(AbsTypesSeq, 1, m) \o OneFileSeq(AbsTypesSeq, n + 1, one)
+  \o SelectSeq(PartSeq(AllTypesSeq, 1, 2), HasFlavour) \o SetToSeq(LongCases)
+C08MachineSeq(n) == PartSeq(AbsTypesSeq, 1, n) \o SelectSeq(PartSeq(AllTypesSeq, 1, 2), HasFlavour)
 
 (* ----- export ---------------------------------------------------------------- *)
 
